@@ -59,7 +59,7 @@ static std::string prop_of_oracle(const std::string &o) { size_t d = o.find('.')
 static std::string result_json(const World &w, const Plan &p, long idx, uint64_t seed) {
     std::ostringstream o;
     Hash shape;
-    for (auto &op : p.ops) shape.u64((uint64_t) op.kind);
+    for (auto &op : p.ops) { shape.u64((uint64_t) op.kind); if (op.kind == OP_xp) { shape.u64((uint64_t) (op.a[0] % 4)); shape.u64((uint64_t) (op.a[1] % 10)); shape.u64((uint64_t) (op.a[2] % 11)); } }
     Hash ev = w.evh;
     ev.u64(disk_event_hash());
     o << "{\"idx\":" << idx << ",\"seed\":" << seed << ",\"lane\":\"" << p.swarm.lane << "\"";
